@@ -53,7 +53,7 @@ _RE_STATES = re.compile(r'(\d+) states generated, (\d+) distinct states found')
 _RE_DEPTH = re.compile(r'The depth of the complete state graph search is (\d+)')
 _RE_INV = re.compile(r'Error: Invariant (\S+) is violated')
 _RE_PROP = re.compile(r'Error: (?:Action|Temporal) propert(?:y|ies) (\S+)? ?(?:is|were) violated')
-_RE_COV = re.compile(r'^<(\w+) line \d+, col \d+ to line \d+, col \d+ of module (\w+)>: (\d+):(\d+)')
+_RE_COV = re.compile(r'^<(\w+) line \d+, col \d+ to line \d+, col \d+ of module (\w+)(?: \([\d ]+\))?>: (\d+):(\d+)')
 
 
 def _parse(res):
